@@ -19,6 +19,7 @@ import CookModel.Lemmas.DiagAnalysisIff
 import CookModel.Lemmas.DiagRefChecksExact
 import CookModel.Lemmas.DiagEmptyValueMore
 import CookModel.Lemmas.DiagSoundConv
+import CookModel.Lemmas.TableFacts
 /-
   C07  Diagnostics are sound, complete and placed on the offending construct.
 
@@ -2082,5 +2083,25 @@ example : ∀ d ∈ C07_coreDoc, ∀ sg ∈ d.1, sg.convCore Rat C07_coreEnv := 
     cases hq
     exact ⟨by decide, fun u hu => by cases hu; decide⟩
   · exact ⟨by decide, rts_no_digit_no_inline _ _ _ _ (by decide)⟩
+/-! ### the character table of the real lexer: `uws ' ' = true` is proved for the generated table (`tbl_uws_sp`) -/
+
+example : ({ C07_coreEnv with cs := realCharSpec } : Env).cs = realCharSpec := rfl
+
+/-- `C07_sound_recipe_steps_all_extensions` at the character table generated from the real lexer (any environment whose
+    table is that one, as the driver's `realEnv`):
+    the side condition `uws ' ' = true` is proved for that table (`Lemmas/TableFacts.lean`), not assumed -/
+theorem C07_sound_recipe_steps_all_extensions_real (env : Env) (hreal : env.cs = realCharSpec) (pre : List Tok)
+    (doc : List (List SegX × List Tok)) (hadv : env.ext.has Gen.EXT_ADVANCED_UNITS = false)
+    (hinl : env.ext.has Gen.EXT_INLINE_QUANTITIES = false) (hpre : blankLinesOK pre = true)
+    (hok : ∀ d ∈ doc, (DocItem.step d.1).ok env.cs env.ext = true) (hsimple : ∀ d ∈ doc, d.1.all SegX.simple = true)
+    (hseps : sepsOK (doc.map (·.2)) = true) (hw : WellSpelled env.cs (pre ++ docSpec (stepsDoc doc)))
+    (hfm : parseFrontmatter env.cs (render (pre ++ docSpec (stepsDoc doc))) = none)
+    (hu : UsesNoneInput env.cs (render (pre ++ docSpec (stepsDoc doc))) = true)
+    (hconv : (pullEvents (α := α) env.cs env.ext (render (pre ++ docSpec (stepsDoc doc)))).1.toList.all (evConvCore α env) = true)
+    (e : Ext) :
+    (parseRecipe (α := α) { env with ext := e } (render (pre ++ docSpec (stepsDoc doc)))).diags = #[] ∧
+    (parseRecipe (α := α) { env with ext := e } (render (pre ++ docSpec (stepsDoc doc)))).isValid = true ∧
+    (parseRecipe (α := α) { env with ext := e } (render (pre ++ docSpec (stepsDoc doc)))).panic = none :=
+  C07_sound_recipe_steps_all_extensions env (hws := hreal ▸ tbl_uws_sp) pre doc hadv hinl hpre hok hsimple hseps hw hfm hu hconv e
 
 end Cook
